@@ -1160,6 +1160,8 @@ class Patron(object):
         if self.connector.cutoff:
             if self.respondent:
                 self.respondent.close()  # close any pending or current response parsing
+            if not self.waited and self.connector.rxbs:  # no response awaited on dead connection
+                self.connector.clearRxbs()  # so what it left behind is not for next connection
 
             if self.connector.reconnectable:  # useful for server sent event stream
                 if self.connector.timeout > 0.0 and self.connector.timer.expired:  # timed out
